@@ -629,8 +629,11 @@ class Executor:
         if m and not (s.startswith("(") and s.endswith(")")):
             base = store[self.place(body, m.group(1), frame, store)]
             base = self.resolve_slice(store, base)
-            if not re.match(r"^_\d+$", m.group(2)):
-                raise Unsupported("constant index projection")
+            cm = re.match(r"^(\d+) of (\d+)$", m.group(2))
+            if cm:   # a slice pattern's element: counted from the start of a slice of at least that length
+                if int(cm.group(1)) >= len(base.cells):
+                    raise Unsupported("constant index projection outside the slice")
+                return base.cells[int(cm.group(1))]
             idx = store[frame[m.group(2)]]
             sv = z3.simplify(idx.t)
             if not z3.is_bv_value(sv):
@@ -769,11 +772,19 @@ class Executor:
         if op in arith:
             return BV(arith[op](), a.width, sg)
         if op in ("AddWithOverflow", "SubWithOverflow", "MulWithOverflow"):
+            # the wrapped result at the operand width and z3's own overflow predicates (widening both operands and comparing
+            # nests 2w-bit terms at every addition of a sum and made one feasibility query take 15 minutes)
             w = a.width
-            ext = (lambda t: z3.SignExt(w, t)) if sg else (lambda t: z3.ZeroExt(w, t))
-            wide = {"AddWithOverflow": ext(x) + ext(y), "SubWithOverflow": ext(x) - ext(y), "MulWithOverflow": ext(x) * ext(y)}[op]
-            res = z3.Extract(w - 1, 0, wide)
-            return ("overflowing", BV(res, w, sg), Bool(ext(res) != wide))
+            if op == "AddWithOverflow":
+                res = x + y
+                fine = z3.And(z3.BVAddNoOverflow(x, y, True), z3.BVAddNoUnderflow(x, y)) if sg else z3.BVAddNoOverflow(x, y, False)
+            elif op == "SubWithOverflow":
+                res = x - y
+                fine = z3.And(z3.BVSubNoOverflow(x, y), z3.BVSubNoUnderflow(x, y, True)) if sg else z3.BVSubNoUnderflow(x, y, False)
+            else:
+                res = x * y
+                fine = z3.And(z3.BVMulNoOverflow(x, y, True), z3.BVMulNoUnderflow(x, y)) if sg else z3.BVMulNoOverflow(x, y, False)
+            return ("overflowing", BV(res, w, sg), Bool(z3.Not(fine)))
         raise Unsupported("binary operator " + op)
 
     def rvalue(self, body, s, frame, store):
@@ -1657,8 +1668,14 @@ def m_map_keys_values(ex, callee, args, pc, store, depth):
     m = deref_all(store, args[0])
     if not isinstance(m, MapV):
         raise Unsupported("%s on %r" % (callee, m))
+    def key_value(k):
+        if isinstance(k, tuple):
+            return Tup([ex.world.new(store, key_value(x)) for x in k])
+        if isinstance(k, int):
+            return BV(z3.BitVecVal(k, 64), 64, False)
+        return Str(z3.StringVal(k))
     if callee.endswith("::keys"):
-        items = [Ref(ex.world.new(store, Str(z3.StringVal(k)))) for k, _ in m.entries]
+        items = [Ref(ex.world.new(store, key_value(k))) for k, _ in m.entries]
     else:
         items = [Ref(c) for _, c in m.entries]
     yield ("value", Iter("vec", cells=tuple(ex.world.new(store, x) for x in items)), pc, store)
@@ -1851,6 +1868,148 @@ def m_vec_extend(ex, callee, args, pc, store, depth):
         v = stx[cell]
         stx[cell] = VecV(list(v.cells) + [ex.world.new(stx, x) for x in items])
         yield ("value", Unit(), pcx, stx)
+
+
+@MODELS.add(r"^(std::vec::)?Vec::<.*>::as_slice$|^(std::vec::)?Vec::<.*>::as_mut_slice$")
+def m_vec_as_slice(ex, callee, args, pc, store, depth):
+    v, cell = vec_of(ex, store, args[0])
+    yield ("value", Slice(cell), pc, store)
+
+
+def _predicate_fork(ex, f, item_arg, pcx, stx, depth):
+    """Calls a predicate closure; yields (verdict: True | False, pc, store) for every feasible outcome."""
+    for kind, val, pcy, sty in ex.call_closure(f, [item_arg], pcx, stx, depth):
+        if kind != "value":
+            yield (kind, val), pcy, sty
+            continue
+        bt = z3.simplify(val.t)
+        if z3.is_true(bt):
+            yield True, pcy, sty
+        elif z3.is_false(bt):
+            yield False, pcy, sty
+        else:
+            hit, miss = ex.feasible(pcy + [bt]), ex.feasible(pcy + [z3.Not(bt)])
+            if hit:
+                yield True, pcy + [bt], (dict(sty) if miss else sty)
+            if miss:
+                yield False, pcy + [z3.Not(bt)], sty
+
+
+@MODELS.add(r" as Iterator>::position::<")
+def m_iter_position(ex, callee, args, pc, store, depth):
+    """Iterator::position with a predicate closure: the first index whose element satisfies it (forks on symbolic verdicts)."""
+    it, f = args[0], args[1]
+    if isinstance(it, Ref):
+        it = store[it.cell]
+    for items, pc0, st0 in ex.iter_items(it, pc, store, depth):
+        def go(k, pcx, stx):
+            if k == len(items):
+                yield ("value", NONE, pcx, stx)
+                return
+            for verdict, pcy, sty in _predicate_fork(ex, f, items[k], pcx, stx, depth):
+                if isinstance(verdict, tuple):
+                    yield (verdict[0], verdict[1], pcy, sty)
+                elif verdict:
+                    yield ("value", some(ex, sty, BV(z3.BitVecVal(k, 64), 64, False)), pcy, sty)
+                else:
+                    yield from go(k + 1, pcy, sty)
+        yield from go(0, pc0, st0)
+
+
+@MODELS.add(r"^(core::)?slice::<impl \[(std::vec::)?Vec<.*>\]>::concat::<")
+def m_slice_concat(ex, callee, args, pc, store, depth):
+    """[Vec<T>]::concat: the elements of the inner vectors in order (copied)."""
+    outer, _ = vec_of(ex, store, args[0])
+    cells = []
+    for c in outer.cells:
+        inner = deref_all(store, store[c])
+        if not isinstance(inner, VecV):
+            raise Unsupported("concat of %r" % (inner,))
+        cells += [ex.world.new(store, ex.world.copy_value(store, store[x])) for x in inner.cells]
+    yield ("value", VecV(cells), pc, store)
+
+
+def structural_eq(store, a, b):
+    """z3 formula: two values of the same type are equal, field by field (what a derived PartialEq computes)."""
+    a, b = deref_all(store, a), deref_all(store, b)
+    if isinstance(a, (BV, Str, Bool)) and type(a) is type(b):
+        return a.t == b.t
+    if isinstance(a, Tup) and isinstance(b, Tup) and len(a.cells) == len(b.cells):
+        return z3.And([structural_eq(store, store[x], store[y]) for x, y in zip(a.cells, b.cells)]) if a.cells else z3.BoolVal(True)
+    if isinstance(a, VecV) and isinstance(b, VecV):
+        if len(a.cells) != len(b.cells):
+            return z3.BoolVal(False)
+        return z3.And([structural_eq(store, store[x], store[y]) for x, y in zip(a.cells, b.cells)]) if a.cells else z3.BoolVal(True)
+    if isinstance(a, Enum) and isinstance(b, Enum) and isinstance(a.disc, int) and isinstance(b.disc, int):
+        if a.disc != b.disc:
+            return z3.BoolVal(False)
+        pa, pb = a.payload.get(a.disc, ()), b.payload.get(b.disc, ())
+        return z3.And([structural_eq(store, store[x], store[y]) for x, y in zip(pa, pb)]) if pa else z3.BoolVal(True)
+    raise Unsupported("equality of %r and %r" % (a, b))
+
+
+@MODELS.add(r"^<(std::vec::)?Vec<.*> as PartialEq(<.*>)?>::(eq|ne)$")
+def m_vec_partial_eq(ex, callee, args, pc, store, depth):
+    t = z3.simplify(structural_eq(store, args[0], args[1]))
+    yield ("value", Bool(z3.Not(t) if callee.endswith("::ne") else t), pc, store)
+
+
+@MODELS.add(r" as Iterator>::(any|all)::<")
+def m_iter_any_all(ex, callee, args, pc, store, depth):
+    """Iterator::any / all with a predicate closure (short-circuits; forks on symbolic verdicts)."""
+    it, f = args[0], args[1]
+    want = " as Iterator>::any::<" in callee
+    if isinstance(it, Ref):
+        it = store[it.cell]
+    for items, pc0, st0 in ex.iter_items(it, pc, store, depth):
+        def go(k, pcx, stx):
+            if k == len(items):
+                yield ("value", Bool(z3.BoolVal(not want)), pcx, stx)
+                return
+            for verdict, pcy, sty in _predicate_fork(ex, f, items[k], pcx, stx, depth):
+                if isinstance(verdict, tuple):
+                    yield (verdict[0], verdict[1], pcy, sty)
+                elif verdict == want:
+                    yield ("value", Bool(z3.BoolVal(want)), pcy, sty)
+                else:
+                    yield from go(k + 1, pcy, sty)
+        yield from go(0, pc0, st0)
+
+
+@MODELS.add(r"Result::<.*>::map_or::<")
+def m_result_map_or(ex, callee, args, pc, store, depth):
+    r, default, f = args[0], args[1], args[2]
+    if not isinstance(r, Enum) or not isinstance(r.disc, int):
+        raise Unsupported("Result::map_or on %r" % (r,))
+    if r.disc == 1:
+        yield ("value", default, pc, store)
+        return
+    yield from ex.call_closure(f, [store[r.payload[0][0]]], pc, store, depth)
+
+
+@MODELS.add(r" as Iterator>::partition::<")
+def m_iter_partition(ex, callee, args, pc, store, depth):
+    """Iterator::partition into two Vecs with a predicate closure that takes a reference to the item."""
+    it, f = args[0], args[1]
+    em = re.search(r"::partition::<(?:std::vec::)?Vec<([^,>]+)", callee)
+    by_value = bool(em) and not em.group(1).strip().startswith("&")   # Vec<T>: Extend<&T> copies the referents
+
+    def own(stx, v):
+        return ex.world.copy_value(stx, deref_all(stx, v)) if by_value and isinstance(v, Ref) else v
+    for items, pc0, st0 in ex.iter_items(it, pc, store, depth):
+        def go(k, yes, no, pcx, stx):
+            if k == len(items):
+                pair = Tup([ex.world.new(stx, VecV([ex.world.new(stx, own(stx, v)) for v in yes])), ex.world.new(stx, VecV([ex.world.new(stx, own(stx, v)) for v in no]))])
+                yield ("value", pair, pcx, stx)
+                return
+            for verdict, pcy, sty in _predicate_fork(ex, f, Ref(ex.world.new(stx, items[k])), pcx, stx, depth):
+                if isinstance(verdict, tuple):
+                    yield (verdict[0], verdict[1], pcy, sty)
+                elif verdict:
+                    yield from go(k + 1, yes + [items[k]], no, pcy, sty)
+                else:
+                    yield from go(k + 1, yes, no + [items[k]], pcy, sty)
+        yield from go(0, [], [], pc0, st0)
 
 
 # ---- message / error construction: opaque
